@@ -30,6 +30,7 @@ TRUSTED = ["(R) not verified, compared with the verified reference spw_decide on
            "is_single_peaked (ELO); is_single_peaked_axis and sp_cons_ones_matrix are mirrored (Model/SP.v)"]
 ASSUMPTIONS = ["orders are complete over the instance's alternatives, classes non-empty, axis = permutation of the "
                "alternatives (quantifier of C11); instance.orders holds distinct orders"]
+COVER_FILES = ['properties/subdomains/ordinal/singlepeaked/singlepeakedness.py', 'properties/subdomains/consecutive_ones.py']
 TIMEOUT_S = 60.0
 CHUNK = 20
 
